@@ -12,6 +12,15 @@ import (
 
 func main() {
 	in := hx.FedInput{Spec: hx.FixedFed(), StoreSeed: 5, Query: os.Args[1]}
+	if len(os.Args[1]) > 0 && os.Args[1][0] == '@' {
+		b, _ := os.ReadFile(os.Args[1][1:])
+		in = hx.FedInput{}
+		json.Unmarshal(b, &in)
+		if len(os.Args) > 2 {
+			in.Query = os.Args[2]
+			os.Args = os.Args[:2]
+		}
+	}
 	if len(os.Args) > 2 {
 		json.Unmarshal([]byte(os.Args[2]), &in.Vars)
 	}
@@ -19,6 +28,19 @@ func main() {
 		json.Unmarshal([]byte(os.Args[3]), &in.Spec.Priorities)
 	}
 	c := &hx.Ctx{Seed: 1}
+	if os.Getenv("SHRINK_HANG") != "" {
+		store := hx.GenStore(c.Rand(1), false)
+		q := hx.ShrinkQuery(in.Query, func(q string) bool {
+			f, err := hx.NewFed(in.Spec, store)
+			if err != nil {
+				return false
+			}
+			_, _, hung, _ := f.Plan(q, 4*time.Second)
+			return hung
+		}, 300)
+		fmt.Println("SHRUNK:", q)
+		in.Query = q
+	}
 	fc, err := hx.RunFed(c, in, 5*time.Second)
 	if err != nil {
 		fmt.Println("ERR", err)
